@@ -69,7 +69,7 @@ def run(ctx):
         if fields[2]:
             kw["log_q"] = [1.0, 1.0, 2.0]
         if cname == "SMCSamples":
-            kw["beta"] = 0.5
+            kw.update(beta=0.5, log_evidence=-3.5, log_evidence_error=0.25)
         d = None if sp == "none" else (w if sp == "str" else nsutil.native_dtype(ns, w))
         return classes[cname](x, xp=NS[ns], dtype=d, **kw)
 
@@ -118,6 +118,13 @@ def run(ctx):
                     ctx.violation(f"{op}:fields:{cname}", f"{cname}.{op}: optional fields {ft} from {fields}", case)
                 if not np.array_equal(np.asarray(nsutil.to_list(t.x), float).astype(wantw), sx.astype(wantw)):
                     ctx.violation(f"{op}:values:{cname}:{a}->{b}", f"{cname}.{op} {a}->{b} changed values", case)
+                # the scalars a set carries (evidence and its error) are fields too: a conversion keeps them
+                # (from_samples is the class-changing constructor: class-specific scalars are passed to it explicitly, by design)
+                for sf in (() if op == "from_samples" else ("log_evidence", "log_evidence_error") if op == "to_standard_samples" else ("log_evidence", "log_evidence_error", "beta")):
+                    v0, v1 = getattr(s, sf, None), getattr(t, sf, None)
+                    if v0 is not None and (v1 is None or abs(nsutil.to_float(v1) - nsutil.to_float(v0)) > 1e-5 * (1 + abs(nsutil.to_float(v0)))):
+                        ctx.violation(f"{op}:scalar:{sf}:{cname}", f"{cname}.{op} {a}->{b}: {sf} was {v0}, is {v1}", case)
+                        break
                 if not nsutil.NS_OF(t) == (b if op not in ("to_standard_samples",) else a):
                     ctx.violation(f"{op}:namespace:{cname}", f"{cname}.{op}: result lives in {nsutil.NS_OF(t)}, requested {b}", case)
             if len(ctx.samples) < 3 and a != b and tsp == "none":
